@@ -10,7 +10,7 @@
    from /repo on every run (Gen/CfgToolGen.v). *)
 From TL Require Import Lib.Base Lib.GenTypes Model.CfgTypes Gen.CfgToolGen Model.CfgMerge Model.CfgCli Model.CfgLoc Model.CfgPath
      Proofs.CfgLines Proofs.CfgMergeMain Proofs.CfgMergeText Proofs.CfgMergeSpec Proofs.CfgInitMain Proofs.CfgCliProofs Proofs.CfgConvert
-     Proofs.CfgLocProofs Proofs.CfgPathProofs.
+     Proofs.CfgLocProofs Proofs.CfgPathProofs Proofs.CfgTail.
 From Coq Require Import ZArith.
 
 (* 1. init-config without --force, every preset, every existing file of the subset, every quirk vector with the two
@@ -68,6 +68,19 @@ Proof.
          end).
 Qed.
 Print Assumptions C20_raw_text_preserved.
+
+(* 2''. ... and that white space is ALL the append mode takes away: the text is either white space only, or it is A, a last
+      non-blank line l = rstrip l ++ w (w white space only) and blank lines B, and the new text starts with A and rstrip l.
+      This confines finding eof_rstrip_changes_block_scalar to files in which w / B belong to a value (a file ending inside a block
+      scalar); `is_blank` / `all_ws` use str.isspace on the ASCII range. *)
+Theorem C20_append_loses_only_trailing_whitespace : forall q preset reps E names R,
+  lookup preset presets = Some reps -> init_config q preset E = Merged names R ->
+  (exists pre ins post, E = pre ++ post /\ R = pre ++ ins ++ post) \/
+  (forallb is_blank E = true /\ exists ins, R = EmptyString :: ins) \/
+  (exists A l B w ins, E = A ++ l :: B /\ is_blank l = false /\ forallb is_blank B = true /\
+                       l = (rstrip l ++ w)%string /\ all_ws w = true /\ R = A ++ rstrip l :: ins).
+Proof. exact init_append_loses_only_ws. Qed.
+Print Assumptions C20_append_loses_only_trailing_whitespace.
 
 (* 3. the file generated for each preset: a block document that has every linter section under its hyphenated
       name, no two keys that normalise to the same name, no placeholder left, and on which init-config finds
